@@ -18,6 +18,11 @@ def envUnc : ColEnv (ZMod 5) :=
     K := fun r c => if r = c then (if r = 1 then 2 else if r = 2 then 3 else 0) else 0,
     mNone := false, unc := true, inc := Incrb.all, dispOnly := false }
 
+/-- the same with a *damped* rigid-body mode (`b = [1,1,0]`; findings F51 / F52): at `Ω = 1` the
+rigid-body row has the dynamic stiffness `−1 + 2·1 = 1` -/
+def envUncD : ColEnv (ZMod 5) :=
+  { envUnc with B := fun r c => if r = c ∧ r ≤ 1 then 1 else 0 }
+
 /-- the same layout treated as coupled (`m = I`, `b = 0`, `k = diag(0,1,3)`): LU solves, `imrb`,
 complex modes -/
 def envCoup : ColEnv (ZMod 5) :=
